@@ -38,6 +38,7 @@ pub const FIXED: &[&str] = &[
     "load.bytes.31;;b from_bytes.scalar;b;s publish;s; | b=y:ffffffffffffffffffffffffffffffffffffffffffffffffffffffffffffff",
     "load.bytes.4;;b from_bytes.scalar;b;s publish;s; | b=y:05000000",
     "from_bytes.scalar;%;x publish;x; |",
+    "load.bytes.0;;v2 from_bytes.scalar;v2;v1 load.point;;v3 add;v3,v3;v4 publish;v3,v1,v4; load.native;;v6 mul;v6,v6;v5 publish;v4,v4,v5; publish;Native:-0x01; load.native;;v7 add;v7,v6;v8 | v2=y: v3=p:0/1 v6=n:1 v7=n:73eda753299d7d483339d80809a1d80553bda402fffe5bfeffffffff00000000",
     // N8/N9: zero-width values
     "load.big.0;;x publish;x; | x=u:0",
     "load.bytes.0;;b publish;b; | b=y:",
@@ -621,7 +622,7 @@ pub fn generated(ctx: &mut Ctx) {
     } else if ctx.thorough() {
         (15000, 6000, 40000)
     } else {
-        (4000, 2000, 10000)
+        (3000, 1500, 8000)
     };
     let wide = !ctx.quick();
     let mut rng = ctx.rng("c18-programs");
